@@ -245,6 +245,65 @@ impl Leg for Giants {
     }
 }
 
+/// strings that live only for the constructor call, one after the other, all of the same length and different
+/// content (a loop over decoded records): caches keyed by the address or length of the Python string
+#[derive(Clone, Debug, Serialize, Deserialize)]
+pub struct TempCase {
+    pub seqs: Vec<Bytes>,
+    pub k: usize,
+    pub w: usize,
+    pub m: usize,
+}
+
+pub fn temp_strategy() -> BoxedStrategy<TempCase> {
+    (gen::k_strategy(), gen::wm_strategy(31, 60), prop_oneof![2 => 20usize..=300, 3 => 512usize..=1400], 3usize..=8)
+        .prop_flat_map(|(k, (w, m), len, n)| {
+            (proptest::collection::vec(proptest::collection::vec(prop::sample::select(b"ACGTACGTACGTN".to_vec()), len), n), Just(k), Just(w), Just(m))
+        })
+        .prop_map(|(seqs, k, w, m)| TempCase { seqs: seqs.into_iter().map(Bytes).collect(), k, w, m })
+        .boxed()
+}
+
+/// which = 0: the k-mer iterator is judged, 1: the minimiser iterator
+pub fn check_temporaries(c: &TempCase, which: usize) -> Verdict {
+    let mut v = Verdict::new();
+    v.class("python-temporaries");
+    v.class_if(c.seqs.first().map(|s| s.0.len() >= 512).unwrap_or(false), "temporaries>=512-chars");
+    v.nontrivial = c.seqs.len() >= 2;
+    let hexes: Vec<String> = c.seqs.iter().map(|s| crate::pyworker::hex(&s.0)).collect();
+    match crate::pyworker::ask(&serde_json::json!({"op": "temporaries", "k": c.k, "w": c.w, "m": c.m, "seqs": hexes})) {
+        Err(e) => crate::pyworker::record_error(&mut v, e),
+        Ok(r) => {
+            for (i, s) in c.seqs.iter().enumerate() {
+                let got: Vec<Vec<u64>> = r["ok"][i][which].as_array().map(|a| a.iter().map(|t| t.as_array().map(|x| x.iter().map(|y| y.as_u64().unwrap_or(u64::MAX)).collect()).unwrap_or_default()).collect()).unwrap_or_default();
+                let want: Vec<Vec<u64>> = if which == 0 {
+                    model::windows(&s.0, c.k).iter().map(|x| vec![x.1, x.2]).collect()
+                } else {
+                    model::minimiser_runs(&s.0, c.w, c.m).iter().map(|x| vec![x.0, x.1 as u64, x.2 as u64]).collect()
+                };
+                if got != want {
+                    let p = got.iter().zip(want.iter()).position(|(a, b)| a != b).unwrap_or(got.len().min(want.len()));
+                    v.fail("python-temporaries-differ", format!("string {} of {} equal-length temporaries ({} characters): the {} iterator yields {} items, the model {}; first difference at {}", i, c.seqs.len(), s.0.len(), ["k-mer", "minimiser"][which], got.len(), want.len(), p));
+                    return v;
+                }
+            }
+        }
+    }
+    v
+}
+
+pub struct Temporaries;
+impl Leg for Temporaries {
+    type Case = TempCase;
+    const NAME: &'static str = "python-equal-length-temporaries";
+    fn strategy(_tier: Tier) -> BoxedStrategy<TempCase> {
+        temp_strategy()
+    }
+    fn check(c: &TempCase) -> Verdict {
+        check_temporaries(c, 0)
+    }
+}
+
 /// first calls of a fresh process made by several threads at once
 pub struct Cold;
 impl Leg for Cold {
@@ -296,6 +355,7 @@ pub fn replay(leg: &str, case: &serde_json::Value) -> Option<Result<Verdict, Str
         "python" => Some(crate::engine::replay_leg::<Python>(case)),
         "cold-start-threads" => Some(crate::engine::replay_leg::<Cold>(case)),
         "giant-sequences" => Some(crate::engine::replay_leg::<Giants>(case)),
+        "python-equal-length-temporaries" => Some(crate::engine::replay_leg::<Temporaries>(case)),
         "call-histories" => Some(crate::engine::replay_leg::<Sessions>(case)),
         _ => None,
     }
